@@ -1,5 +1,6 @@
 import TinsModel.Follower.LemmasIdent
 import TinsModel.Follower.LemmasStep
+import TinsModel.Follower.LemmasSim
 /- Property C07 — stream follower tracks connections, directions and lifetimes: the property theorems.
    Model: TinsModel/Follower/Model.lean (code-shaped, generic in the connection key; the code is `keyOf = identOf`).
    Reference: TinsModel/Follower/Spec.lean (`refKeyOf` = family + unordered endpoint pair). -/
@@ -76,5 +77,55 @@ example : CrossFamilyTwin syn4 syn6 := by decide
 theorem memory_bound {κ : Type} [DecidableEq κ] (cfg : Cfg) (keyOf : Pkt → κ) (lt : κ → κ → Bool) (h : List Pkt) :
     ∀ e ∈ (run cfg keyOf lt Follower.empty h).1.streams, e.2.chunks ≤ cfg.maxChunks ∧ e.2.bytes ≤ cfg.maxBytes :=
   run_within cfg keyOf lt h Follower.empty (by intro e he; cases he)
+
+/-! ## 3. the follower refines the reference connection table -/
+
+/-- no two packets of the capture that belong to different connections get the same identifier -/
+def CollisionFree (h : List Pkt) : Prop := ∀ p ∈ h, ∀ q ∈ h, identOf p = identOf q → refKeyOf p = refKeyOf q
+
+/-- FULL statement (false of the code, see `trace_refines_reference_fails`): on every capture the callback trace of the
+    follower is the trace of the reference connection table (keyed by family + unordered endpoint pair), key for key. -/
+def trace_refines_reference : Prop :=
+  ∀ (cfg : Cfg) (h : List Pkt), (∀ p ∈ h, WellFormed p) →
+    (Model.run cfg Follower.empty h).2 = (Ref.run cfg Follower.empty h).2.map (List.map (Ev.mapKey RefKey.ident))
+
+def cfg0 : Cfg := ⟨false, 512, 3145728, 300000000, true⟩
+
+/-- KF-C07-1 witness, replayed on the real code by the check: SYN of an IPv4 connection, then SYN of the IPv6
+    connection `a.b.c.d::` with the same ports — the reference announces both, the follower only the first. -/
+theorem trace_refines_reference_fails : ¬ trace_refines_reference := by
+  intro h
+  have h1 := h cfg0 [syn4, syn6] (by decide)
+  have h2 := congrArg (List.map List.length) h1
+  simp only [List.map_map] at h2
+  revert h2
+  decide
+
+theorem identOf_eq : identOf = fun q => RefKey.ident (refKeyOf q) := by
+  funext q; exact (ident_refKeyOf q).symm
+
+/-- On every capture without identifier collisions (by `ident_injective_partial`: without cross-family twins) the
+    follower's callback trace *is* the reference trace (all configurations, all interleavings, all timestamps):
+    announcements, data/out-of-order callbacks, closes, terminations and their order; the states correspond too
+    (`run_sim`). The hypothesis quantifies over all packets of the capture, not only over simultaneously live
+    connections (slightly stronger than needed). -/
+theorem trace_refines_reference_partial (cfg : Cfg) (h : List Pkt) (hc : CollisionFree h) :
+    (Model.run cfg Follower.empty h).2 = (Ref.run cfg Follower.empty h).2.map (List.map (Ev.mapKey RefKey.ident)) := by
+  unfold Model.run Ref.run
+  rw [identOf_eq]
+  refine (run_sim cfg RefKey.ident (fun k => ∃ p ∈ h, k = refKeyOf p) ?_ refKeyOf Ident.lt RefKey.lt (fun _ _ => rfl) h
+    (fun p hp => ⟨p, hp, rfl⟩) Follower.empty Follower.empty ⟨rfl, rfl, by intro e he; cases he⟩).2
+  intro a b ⟨p, hp, ha⟩ ⟨q, hq, hb⟩ hab
+  subst ha; subst hb
+  rw [ident_refKeyOf, ident_refKeyOf] at hab
+  exact hc p hp q hq hab
+
+
+/-- the hypothesis of the partial theorem in terms of the excluded region -/
+theorem collisionFree_of_no_twins (h : List Pkt) (hn : ∀ p ∈ h, ∀ q ∈ h, ¬ CrossFamilyTwin p q) : CollisionFree h :=
+  fun p hp q hq he => (ident_injective_partial p q (hn p hp q hq)).1 he
+
+example : CollisionFree [syn4, { syn4 with sport := 1235 }, { syn6 with sport := 1235 , dport := 81}] := by
+  apply collisionFree_of_no_twins; decide
 
 end Tins.Props.C07
